@@ -46,6 +46,7 @@ SmpOf(lay) == LET ts == SetToSortSeq({u \in 0..MaxT : lay[u] # "-"}, LAMBDA a, b
 \* querier's time range returns it without any sample (the series after it must not be disturbed by that)
 Data(x) == << Series(<< <<"__name__", "m">>, <<"a", "w">> >>, <<Smp(0, "f", 5)>>),
               Series(<< <<"__name__", "m">>, <<"a", "x">> >>, SmpOf(x.lay)),
+              Series(<< <<"__name__", "m">>, <<"a", "z">> >>, [u \in 1..(MaxT + 1) |-> Smp(u - 1, "f", 5)]),
               Series(<< <<"__name__", "decoy">>, <<"a", "x">> >>, <<Smp(0, "f", 7), Smp(MaxT, "f", 8)>>) >>
 
 AtK(x) == x.at.k
